@@ -3,6 +3,7 @@
 -/
 import Depccg.Wire
 import Depccg.Ja
+import Depccg.OpsSearch
 
 namespace Depccg
 namespace Ops
@@ -139,6 +140,8 @@ def grammarOps (st : State) (op : String) (ts : List String) : Option (State × 
 def dispatch (st : State) (line : String) : State × String :=
   match line.splitOn " " with
   | op :: ts =>
+    if op == "search" then (st, OpsSearch.searchOp ts) else
+    if op == "beam" then (st, OpsSearch.beamOp ts) else
     match catOps op ts with
     | some r => (st, r)
     | none =>
